@@ -136,32 +136,39 @@ def rename_names(node, mapping):
   return _R().visit(copy.deepcopy(node))
 
 
-class RoleView:
-  """A function seen under canonical role names (same interface as FuncInfo
-  for the parts the rules use)."""
-
-  def __init__(self, func, node):
-    self.node = node
-    for a in ('module', 'qualname', 'key', 'cls', 'name'):
-      setattr(self, a, getattr(func, a, None))
-    self.orig = func
-
-  def params(self):
-    return self.orig.params()
+def _clone_func(func, node):
+  """A FuncInfo for the renamed body (usable by the engine like the
+  original)."""
+  from .model import FuncInfo
+  base = getattr(func, 'orig', func)
+  rv = FuncInfo(base.module, base.name, node, cls=base.cls,
+                parent=getattr(base, 'parent', None))
+  rv.orig = base
+  return rv
 
 
 def role_view(func, roles):
   """`func` with the variables in `roles` {actual name: role name} renamed.
-  Returns None when the renaming would conflate two variables: two names
-  with one role, or a role name already used by another variable."""
+  A renaming that would conflate two variables is not performed: roles
+  claimed by two names, and role names already used by another variable of
+  the function, are dropped (those variables keep their own names, so the
+  rule sees them as they are written)."""
   roles = {k: v for k, v in roles.items() if k != v}
-  if len(set(roles.values())) != len(roles):
-    return None
   used = set(n.id for n in ast.walk(func.node) if isinstance(n, ast.Name))
   used |= set(a.arg for n in ast.walk(func.node)
               if isinstance(n, ast.arguments)
               for a in n.posonlyargs + n.args + n.kwonlyargs)
-  for k, v in roles.items():
-    if v in used and v not in roles:
-      return None
-  return RoleView(func, rename_names(func.node, roles))
+  changed = True
+  dropped = {}
+  while changed:
+    changed = False
+    cnt = {}
+    for k, v in roles.items():
+      cnt[v] = cnt.get(v, 0) + 1
+    for k, v in list(roles.items()):
+      if cnt[v] > 1 or (v in used and v not in roles):
+        dropped[k] = roles.pop(k)
+        changed = True
+  rv = _clone_func(func, rename_names(func.node, roles))
+  rv.dropped = dropped
+  return rv
